@@ -150,7 +150,7 @@ def asan_env():
         + lib("libstdc++.so.6"),
         "ASAN_OPTIONS": "detect_leaks=0:halt_on_error=1:exitcode=77:"
                         "abort_on_error=0:allocator_may_return_null=1",
-        "UBSAN_OPTIONS": "halt_on_error=1:exitcode=78:print_stacktrace=1",
+        "UBSAN_OPTIONS": "halt_on_error=1:exitcode=77:print_stacktrace=1",
     }
 
 
